@@ -342,9 +342,68 @@ fn group_blocked(pid: i32) -> (bool, bool) {
     (true, on_pipe)
 }
 
-/// the thread that runs the case (the compio runtime lives on it) is asleep
+/// the thread that runs the case (the compio runtime lives on it) is asleep, and so are the kernel-side
+/// helpers of its ring (`iou-wrk-<tid>` / `iou-sqp-<tid>` threads: a punted read/write runs there)
 fn thread_asleep(tid: i32) -> bool {
-    matches!(proc_state(&format!("/proc/self/task/{tid}/stat")), Some('S') | Some('I'))
+    if !matches!(proc_state(&format!("/proc/self/task/{tid}/stat")), Some('S') | Some('I')) {
+        return false;
+    }
+    for t in ring_helpers(tid) {
+        if !matches!(proc_state(&format!("/proc/self/task/{t}/stat")), None | Some('S') | Some('I') | Some('Z') | Some('X')) {
+            return false;
+        }
+    }
+    true
+}
+
+fn ring_helpers(tid: i32) -> Vec<i32> {
+    let mut v = vec![];
+    if let Ok(rd) = fs::read_dir("/proc/self/task") {
+        for e in rd.flatten() {
+            let comm = fs::read_to_string(e.path().join("comm")).unwrap_or_default();
+            let comm = comm.trim();
+            if comm == format!("iou-wrk-{tid}") || comm == format!("iou-sqp-{tid}") {
+                if let Ok(t) = e.file_name().to_string_lossy().parse::<i32>() {
+                    v.push(t);
+                }
+            }
+        }
+    }
+    v
+}
+
+fn ctx_switches(path: &str) -> u64 {
+    fs::read_to_string(path)
+        .unwrap_or_default()
+        .lines()
+        .filter(|l| l.starts_with("voluntary_ctxt_switches") || l.starts_with("nonvoluntary_ctxt_switches"))
+        .filter_map(|l| l.split_whitespace().last().and_then(|x| x.parse::<u64>().ok()))
+        .sum()
+}
+
+/// Load-independent evidence that nothing ran: number of context switches of every process of the child's
+/// group, of the runtime thread and of its ring helpers, plus the set of processes. A process that was
+/// scheduled at all between two samples changes this number, however short the time it ran.
+fn activity(pid: i32, tid: i32) -> u64 {
+    let mut ps = vec![];
+    descendants(pid, &mut ps);
+    let mut h: u64 = ps.len() as u64;
+    for p in ps {
+        h = h.wrapping_mul(1_000_003).wrapping_add(p as u64).wrapping_add(ctx_switches(&format!("/proc/{p}/status")) << 20);
+    }
+    h = h.wrapping_mul(1_000_003).wrapping_add(ctx_switches(&format!("/proc/self/task/{tid}/status")));
+    for t in ring_helpers(tid) {
+        h = h.wrapping_mul(1_000_003).wrapping_add(ctx_switches(&format!("/proc/self/task/{t}/status")));
+    }
+    h
+}
+
+/// how much longer than on a quiet machine a runnable process may have to wait for a CPU: 1-minute load
+/// average per CPU, between 1 and 8. Only the time to the verdict grows, not what is decided.
+fn load_factor() -> u32 {
+    let load = fs::read_to_string("/proc/loadavg").ok().and_then(|s| s.split_whitespace().next().and_then(|x| x.parse::<f64>().ok())).unwrap_or(0.0);
+    let cpus = std::thread::available_parallelism().map(|n| n.get()).unwrap_or(1) as f64;
+    ((load / cpus).ceil() as u32).clamp(1, 8)
 }
 
 fn start_watchdog() {
@@ -355,8 +414,10 @@ fn start_watchdog() {
             // time of the last observed progress, start of the current streak of "everything asleep" samples
             moved: Instant,
             asleep_since: Option<Instant>,
+            // context-switch fingerprint at the start of the streak
+            act: u64,
         }
-        let mut ws: Vec<W> = (0..=WORKERS).map(|_| W { cur: 0, last: 0, moved: Instant::now(), asleep_since: None }).collect();
+        let mut ws: Vec<W> = (0..=WORKERS).map(|_| W { cur: 0, last: 0, moved: Instant::now(), asleep_since: None, act: 0 }).collect();
         loop {
             std::thread::sleep(Duration::from_millis(20));
             for (i, w) in ws.iter_mut().enumerate() {
@@ -382,19 +443,43 @@ fn start_watchdog() {
                     w.asleep_since = None;
                     continue;
                 }
-                let thresh = Duration::from_millis(sl.thresh_ms.load(Ordering::Relaxed));
+                let thresh = Duration::from_millis(sl.thresh_ms.load(Ordering::Relaxed)) * load_factor();
                 if w.moved.elapsed() < thresh / 2 {
                     continue;
                 }
+                let tid = sl.tid.load(Ordering::SeqCst);
                 let (blocked, on_pipe) = group_blocked(pid);
-                if !(thread_asleep(sl.tid.load(Ordering::SeqCst)) && blocked) {
+                if !(thread_asleep(tid) && blocked) {
                     w.asleep_since = None;
                     continue;
+                }
+                // asleep in every sample is not enough on a loaded machine: nobody may have been scheduled
+                // at all during the streak (context-switch counters unchanged)
+                let act = activity(pid, tid);
+                if w.asleep_since.is_some() && act != w.act {
+                    w.asleep_since = None;
+                }
+                if w.asleep_since.is_none() {
+                    w.act = act;
                 }
                 // nobody of the child's group waits on a pipe (exited, or gone): only a very long silence counts
                 let thresh = if on_pipe { thresh } else { thresh * 4 };
                 let t = *w.asleep_since.get_or_insert_with(Instant::now);
                 if t.elapsed() >= thresh / 2 && w.moved.elapsed() >= thresh {
+                    // re-confirm: five more samples, 100 ms apart, everything still asleep and not scheduled once
+                    let mut confirmed = true;
+                    for _ in 0..5 {
+                        std::thread::sleep(Duration::from_millis(100));
+                        let (b2, _) = group_blocked(pid);
+                        if !(b2 && thread_asleep(tid)) || activity(pid, tid) != w.act || sl.progress.load(Ordering::Relaxed) != p || sl.pid.load(Ordering::SeqCst) != pid {
+                            confirmed = false;
+                            break;
+                        }
+                    }
+                    if !confirmed {
+                        w.asleep_since = None;
+                        continue;
+                    }
                     if std::env::var("C20_DEBUG").is_ok() {
                         let mut ps = vec![];
                         descendants(pid, &mut ps);
@@ -1204,7 +1289,371 @@ fn exec_pipe_line(line: &str, ex: &mut Exec) -> String {
     format!("ok out={} a={} b={}", show_bytes(&o.out), st(&o.a), st(&o.b))
 }
 
+// ---------------------------------------------------------------- managed (buffer pool) reads, reused builders
+
+/// default pool of the runtime: 8 buffers (compio-driver ProactorBuilder::new)
+const POOL: usize = 8;
+
+fn parse_script(t: &str) -> Option<Vec<Act>> {
+    let v = if t == "-" { Some(vec![]) } else { t.split(';').map(parse_act).collect::<Option<Vec<_>>>() }?;
+    if v.iter().any(|a| matches!(a, Act::Copy { blk: 0, .. })) { None } else { Some(v) }
+}
+
+#[derive(Default, Debug)]
+struct MObs {
+    out: Vec<u8>,
+    st: Option<ExitStatus>,
+    errors: Vec<String>,
+    busy: u32,
+    reads: u32,
+    /// bytes collected when the first ResourceBusy was seen
+    max_held: usize,
+}
+
+async fn mread_compio(stream: char, hold: usize, len: usize, cmd: &str) -> MObs {
+    use compio_io::AsyncReadManaged;
+    let mut o = MObs::default();
+    let mut c = Command::new("/bin/sh");
+    c.arg("-c").arg(cmd);
+    c.stdin(Stdio::null()).unwrap();
+    if stream == 'o' {
+        c.stdout(Stdio::piped()).unwrap().stderr(Stdio::null()).unwrap();
+    } else {
+        c.stdout(Stdio::null()).unwrap().stderr(Stdio::piped()).unwrap();
+    }
+    c.process_group(0);
+    let mut child = match c.spawn() {
+        Ok(c) => c,
+        Err(e) => {
+            o.errors.push(format!("spawn:{:?}", e.kind()));
+            return o;
+        }
+    };
+    slot().pid.store(child.id() as i32, Ordering::SeqCst);
+    macro_rules! reader {
+        ($h:expr) => {{
+            let mut h = $h;
+            let mut held = std::collections::VecDeque::new();
+            loop {
+                match h.read_managed(len).await {
+                    Ok(Some(buf)) => {
+                        bump();
+                        o.reads += 1;
+                        if buf.len() == 0 || buf.len() > len {
+                            o.errors.push(format!("managed-count:{}/{len}", buf.len()));
+                            break;
+                        }
+                        held.push_back(buf);
+                        o.max_held = o.max_held.max(held.len());
+                        while held.len() > hold {
+                            let b = held.pop_front().unwrap();
+                            o.out.extend_from_slice(&b);
+                        }
+                    }
+                    // the real end of file
+                    Ok(None) => break,
+                    Err(e) if e.kind() == io::ErrorKind::ResourceBusy => {
+                        bump();
+                        o.busy += 1;
+                        if held.is_empty() {
+                            o.errors.push("busy-nothing-held".into());
+                            break;
+                        }
+                        // consume the batch: the buffers go back to the pool; retry
+                        for b in held.drain(..) {
+                            o.out.extend_from_slice(&b);
+                        }
+                    }
+                    Err(e) if e.kind() == io::ErrorKind::Interrupted => {}
+                    Err(e) => {
+                        o.errors.push(format!("read_managed:{:?}", e.kind()));
+                        break;
+                    }
+                }
+            }
+            for b in held.drain(..) {
+                o.out.extend_from_slice(&b);
+            }
+        }};
+    }
+    if stream == 'o' {
+        reader!(child.stdout.take().unwrap());
+    } else {
+        reader!(child.stderr.take().unwrap());
+    }
+    match child.wait().await {
+        Ok(st) => o.st = Some(st),
+        Err(e) => o.errors.push(format!("wait:{:?}", e.kind())),
+    }
+    o
+}
+
+/// `mread <drv> <o|e> <hold> <len> <script> <opts>`: the child (stdin null) runs `script`; the parent reads the
+/// stream through `read_managed(len)` keeping up to `hold` pool buffers (>= POOL: all of them, until the pool
+/// reports exhaustion), collects until the real end of file, waits.
+fn exec_mread_line(line: &str, ex: &mut Exec) -> String {
+    let w: Vec<&str> = line.split_whitespace().collect();
+    if w.len() != 7 || !["uring", "poll"].contains(&w[1]) || !["o", "e"].contains(&w[2]) {
+        return "bad-op".into();
+    }
+    let (Ok(hold), Ok(len), Some(script)) = (w[3].parse::<usize>(), w[4].parse::<usize>(), parse_script(w[5])) else { return "bad-op".into() };
+    if len == 0 || len > 8192 || script.iter().any(|a| matches!(a, Act::Copy { .. })) {
+        return "bad-op".into();
+    }
+    let (drv, stream) = (w[1], w[2].chars().next().unwrap());
+    let cmd = compile(&script);
+    let nops = script.iter().filter(|a| **a == Act::Nop).count() as u64;
+    let orc = std::process::Command::new("/bin/sh").arg("-c").arg(&cmd).stdin(Stdio::null()).output();
+    slot().t0_ms.store(now_ms(), Ordering::SeqCst);
+    slot().deadlock.store(false, Ordering::SeqCst);
+    slot().thresh_ms.store(12000 + 3 * NOP_MS * nops, Ordering::Relaxed);
+    let r = with_rt(drv, |rt| rt.block_on(mread_compio(stream, hold, len, &cmd)));
+    slot().pid.store(0, Ordering::SeqCst);
+    slot().t0_ms.store(0, Ordering::SeqCst);
+    let o = match r {
+        Ok(o) => o,
+        Err(e) => return e,
+    };
+    let deadlock = slot().deadlock.swap(false, Ordering::SeqCst);
+    ex.tag(format!("drv:{drv}"));
+    ex.tag(format!("mread:hold{}", if hold >= POOL { "=all".to_string() } else { format!("={hold}") }));
+    ex.tag(if o.busy > 0 { "mread:pool-exhausted" } else { "mread:pool-not-exhausted" });
+    ex.nontrivial = o.reads > 1;
+    let orc = match orc {
+        Ok(x) => x,
+        Err(e) => {
+            ex.fail("C20:harness-oracle", format!("{line}: {:?}", e.kind()));
+            return "error:oracle".into();
+        }
+    };
+    if deadlock {
+        ex.fail("C20:deadlock", format!("{line}: managed reader made no progress"));
+        return "deadlock".into();
+    }
+    let want = if stream == 'o' { &orc.stdout } else { &orc.stderr };
+    // monitor (implementation only): bytes collected until the real end of file == bytes the child wrote
+    if o.out != *want {
+        ex.fail(
+            "C20:managed-read-incomplete",
+            format!(
+                "{line}: read_managed collected {} until Ok(None), the child wrote {} (std::process); reads={} pool-exhausted={} times, max held={} errors={:?}",
+                show_bytes(&o.out), show_bytes(want), o.reads, o.busy, o.max_held, o.errors
+            ),
+        );
+    }
+    if !o.errors.is_empty() {
+        ex.fail("C20:io-error", format!("{line}: {:?}", o.errors));
+        return format!("error:{}", o.errors.join("|"));
+    }
+    if hold >= POOL && o.reads as usize > POOL && o.busy == 0 {
+        ex.fail("C20:managed-pool-never-busy", format!("{line}: {} buffers handed out with none given back (pool of {POOL}), no ResourceBusy", o.reads));
+    }
+    if o.st.as_ref().map(show_status) != Some(show_status(&orc.status)) {
+        ex.fail("C20:status-differs", format!("{line}: {:?} vs std {:?}", o.st, orc.status));
+    }
+    format!("ok out={} st={}", show_bytes(&o.out), o.st.as_ref().map(show_status).unwrap_or("none".into()))
+}
+
+#[derive(Debug, PartialEq, Clone)]
+struct CallObs {
+    kind: String,
+    out: Option<Vec<u8>>,
+    err: Option<Vec<u8>>,
+    st: String,
+}
+
+fn stdio_of(t: &str) -> Option<Stdio> {
+    match t {
+        "p" => Some(Stdio::piped()),
+        "n" => Some(Stdio::null()),
+        _ => None,
+    }
+}
+
+/// the sequence on ONE `std::process::Command`
+fn reuse_oracle(seq: &[&str], cmd: &str) -> Result<Vec<CallObs>, String> {
+    use std::io::Read;
+    let mut c = std::process::Command::new("/bin/sh");
+    c.arg("-c").arg(cmd);
+    let mut res = vec![];
+    for t in seq {
+        let e = |e: io::Error| format!("oracle-{t}:{:?}", e.kind());
+        match *t {
+            "status" => {
+                let mut ch = c.spawn().map_err(e)?;
+                drop(ch.stdin.take());
+                // like compio's `status`: the handles live until the wait is over
+                let st = ch.wait().map_err(e)?;
+                res.push(CallObs { kind: "status".into(), out: None, err: None, st: show_status(&st) });
+            }
+            "output" | "spawn" => {
+                let mut ch = c.spawn().map_err(e)?;
+                drop(ch.stdin.take());
+                let (so, se) = (ch.stdout.take(), ch.stderr.take());
+                let th = std::thread::spawn(move || se.map(|mut s| { let mut v = vec![]; let _ = s.read_to_end(&mut v); v }));
+                let out = so.map(|mut s| { let mut v = vec![]; let _ = s.read_to_end(&mut v); v });
+                let err = th.join().unwrap();
+                let st = ch.wait().map_err(e)?;
+                let (out, err) = if *t == "output" { (Some(out.unwrap_or_default()), Some(err.unwrap_or_default())) } else { (out, err) };
+                res.push(CallObs { kind: t.to_string(), out, err, st: show_status(&st) });
+            }
+            _ => {
+                let (s, v) = t.split_once('=').ok_or("bad-token")?;
+                let sd = stdio_of(v).ok_or("bad-token")?;
+                match s {
+                    "si" => c.stdin(sd),
+                    "so" => c.stdout(sd),
+                    "se" => c.stderr(sd),
+                    _ => return Err("bad-token".into()),
+                };
+            }
+        }
+    }
+    Ok(res)
+}
+
+/// the sequence on ONE `compio_process::Command`
+async fn reuse_compio(seq: &[&str], cmd: &str) -> Result<Vec<CallObs>, String> {
+    let mut c = Command::new("/bin/sh");
+    c.arg("-c").arg(cmd);
+    let mut res = vec![];
+    for t in seq {
+        let e = |e: io::Error| format!("{t}:{:?}", e.kind());
+        match *t {
+            "status" => {
+                let st = c.status().await.map_err(e)?;
+                bump();
+                res.push(CallObs { kind: "status".into(), out: None, err: None, st: show_status(&st) });
+            }
+            "output" => {
+                let o = c.output().await.map_err(e)?;
+                bump();
+                res.push(CallObs { kind: "output".into(), out: Some(o.stdout), err: Some(o.stderr), st: show_status(&o.status) });
+            }
+            "spawn" => {
+                let mut ch = c.spawn().map_err(e)?;
+                drop(ch.stdin.take());
+                let (so, se) = (ch.stdout.take(), ch.stderr.take());
+                let he = se.map(|s| compio_runtime::spawn(read_loop(s, 4096, true)));
+                let out = match so {
+                    Some(s) => Some(read_loop(s, 4096, false).await),
+                    None => None,
+                };
+                let err = match he {
+                    Some(h) => Some(h.await.map_err(|_| "task-panic".to_string())?),
+                    None => None,
+                };
+                let st = ch.wait().await.map_err(e)?;
+                for (_, er) in out.iter().chain(err.iter()) {
+                    if let Some(er) = er {
+                        return Err(format!("read:{er}"));
+                    }
+                }
+                res.push(CallObs { kind: "spawn".into(), out: out.map(|x| x.0), err: err.map(|x| x.0), st: show_status(&st) });
+            }
+            _ => {
+                let (s, v) = t.split_once('=').ok_or("bad-token")?;
+                let sd = stdio_of(v).ok_or("bad-token")?;
+                match s {
+                    "si" => c.stdin(sd).map(|_| ()),
+                    "so" => c.stdout(sd).map(|_| ()),
+                    "se" => c.stderr(sd).map(|_| ()),
+                    _ => return Err("bad-token".into()),
+                }
+                .map_err(|_| "convert".to_string())?;
+            }
+        }
+    }
+    Ok(res)
+}
+
+/// `reuse <drv> <seq> <script> <opts>`: `seq` = `.`-separated calls on ONE Command: `si=`/`so=`/`se=` + `p` (piped) | `n`
+/// (null), `status`, `output`, `spawn` (take what is there, read to the end, wait). All three streams must be configured
+/// before the first run (nothing is inherited from the harness); the child never reads stdin; outputs fit a pipe.
+fn exec_reuse_line(line: &str, ex: &mut Exec) -> String {
+    let w: Vec<&str> = line.split_whitespace().collect();
+    if w.len() != 5 || !["uring", "poll"].contains(&w[1]) {
+        return "bad-op".into();
+    }
+    let seq: Vec<&str> = w[2].split('.').collect();
+    let Some(script) = parse_script(w[3]) else { return "bad-op".into() };
+    let mut set = [false; 3];
+    for t in &seq {
+        match *t {
+            "status" | "output" | "spawn" => {
+                if set != [true; 3] {
+                    return "bad-op".into();
+                }
+            }
+            _ => match t.split_once('=') {
+                Some((s, v)) if ["p", "n"].contains(&v) => match s {
+                    "si" => set[0] = true,
+                    "so" => set[1] = true,
+                    "se" => set[2] = true,
+                    _ => return "bad-op".into(),
+                },
+                _ => return "bad-op".into(),
+            },
+        }
+    }
+    if script.iter().any(|a| matches!(a, Act::Copy { .. })) || total_emit(&script) > 3000 {
+        return "bad-op".into();
+    }
+    let drv = w[1];
+    let cmd = compile(&script);
+    let orc = reuse_oracle(&seq, &cmd);
+    slot().t0_ms.store(now_ms(), Ordering::SeqCst);
+    let r = with_rt(drv, |rt| rt.block_on(reuse_compio(&seq, &cmd)));
+    slot().t0_ms.store(0, Ordering::SeqCst);
+    let o = match r {
+        Ok(o) => o,
+        Err(e) => return e,
+    };
+    ex.tag(format!("drv:{drv}"));
+    let runs = seq.iter().filter(|t| ["status", "output", "spawn"].contains(t)).count();
+    ex.tag(format!("reuse:runs={runs}"));
+    ex.nontrivial = runs >= 2;
+    let orc = match orc {
+        Ok(x) => x,
+        Err(e) => {
+            ex.fail("C20:harness-oracle", format!("{line}: {e}"));
+            return "error:oracle".into();
+        }
+    };
+    let o = match o {
+        Ok(o) => o,
+        Err(e) => {
+            ex.fail("C20:io-error", format!("{line}: {e}"));
+            return format!("error:{e}");
+        }
+    };
+    let sh = |b: &Option<Vec<u8>>| b.as_ref().map(|b| show_bytes(b)).unwrap_or("-".into());
+    for (i, (a, b)) in o.iter().zip(&orc).enumerate() {
+        // monitor (implementation only): what call i captured == what the same call on a std Command captures
+        if a.out != b.out || a.err != b.err {
+            ex.fail(
+                "C20:reused-command-output-lost",
+                format!("{line}: run {i} ({}) captured out={} err={}, the same sequence on std::process::Command: out={} err={}", a.kind, sh(&a.out), sh(&a.err), sh(&b.out), sh(&b.err)),
+            );
+        }
+        if a.st != b.st {
+            ex.fail("C20:status-differs", format!("{line}: run {i} ({}) st={} std: {}", a.kind, a.st, b.st));
+        }
+    }
+    let mut parts = vec!["ok".to_string()];
+    for a in &o {
+        parts.push(if a.kind == "status" { format!("[status st={}]", a.st) } else { format!("[{} out={} err={} st={}]", a.kind, sh(&a.out), sh(&a.err), a.st) });
+    }
+    parts.join(" ")
+}
+
 fn exec_line(line: &str, ex: &mut Exec) -> String {
+    if line.starts_with("mread ") {
+        return exec_mread_line(line, ex);
+    }
+    if line.starts_with("reuse ") {
+        return exec_reuse_line(line, ex);
+    }
     if line.starts_with("pipe ") {
         return exec_pipe_line(line, ex);
     }
@@ -1430,7 +1879,7 @@ fn results() -> &'static Results {
 /// Start worker threads on the generated cases. Consecutive cases that differ only in the driver stay on
 /// one worker (they share the oracle run). Corpus and replay cases run on the main thread.
 fn prefetch(cases: &[Case]) {
-    let drop_drv = |c: &Case| c.lines.iter().map(|l| l.replacen("run uring", "run", 1).replacen("run poll", "run", 1).replacen("pipe uring", "pipe", 1).replacen("pipe poll", "pipe", 1)).collect::<Vec<_>>();
+    let drop_drv = |c: &Case| c.lines.iter().map(|l| l.replacen("run uring", "run", 1).replacen("run poll", "run", 1).replacen("pipe uring", "pipe", 1).replacen("pipe poll", "pipe", 1).replacen("mread uring", "mread", 1).replacen("mread poll", "mread", 1).replacen("reuse uring", "reuse", 1).replacen("reuse poll", "reuse", 1)).collect::<Vec<_>>();
     let mut units: Vec<Vec<Case>> = vec![];
     for c in cases {
         match units.last_mut() {
@@ -2059,6 +2508,80 @@ fn generate(tier: &str, rng: &mut Rng) -> Vec<Case> {
             sc.opts.push("toend".into());
         }
         push2(&mut cases, "mix", sc);
+    }
+
+    // O. the buffer-pool read path (`read_managed`) with a reader that keeps 0..all of the pool's buffers
+    {
+        let holds: &[usize] = &[0, 1, 3, 7, 8, 9, 99];
+        let lens: &[usize] = &[1, 8, 100, 4096, 8192];
+        let mut n = 0;
+        let mut combos = vec![];
+        for &h in holds {
+            for &l in lens {
+                combos.push((h, l));
+            }
+        }
+        let picks: Vec<(usize, usize)> = if thorough {
+            combos
+        } else {
+            // every hold once, the request sizes spread over them; the all-buffers readers twice
+            let mut v: Vec<(usize, usize)> = holds.iter().enumerate().map(|(i, &h)| (h, lens[(i + rng.range(0, 4) as usize) % 3])).collect();
+            v.push((99, 4096));
+            v.push((8, 8));
+            v
+        };
+        for (h, l) in picks {
+            let total: u64 = match l {
+                1 => rng.range(40, 300),
+                8 => rng.range(100, 2000),
+                100 => rng.range(3000, 20000),
+                4096 => rng.range(70000, 200000),
+                _ => rng.range(150000, 300000),
+            };
+            let stream = if rng.chance(1, 3) { 'e' } else { 'o' };
+            let other = if stream == 'o' { 'e' } else { 'o' };
+            let a = total / 3;
+            let script = vec![
+                Act::Emit { dst: stream, byte: b'a', n: a },
+                Act::Emit { dst: other, byte: b'x', n: rng.range(0, 50) },
+                if rng.chance(1, 2) { Act::Nop } else { Act::Emit { dst: 'n', byte: b'a', n: 0 } },
+                Act::Emit { dst: stream, byte: b'b', n: total - a },
+                Act::Exit(*rng.pick(&CODES)),
+            ];
+            for drv in ["uring", "poll"] {
+                cases.push(Case { name: format!("managed-{n}"), lines: vec![format!("mread {drv} {stream} {h} {l} {} -", script_text(&script))] });
+                n += 1;
+            }
+        }
+    }
+
+    // P. one `Command` used for several children: every run gets the stdio configuration current at that moment
+    {
+        let runs = ["status", "output", "spawn"];
+        let mut n = 0;
+        for i in 0..(if thorough { 60 } else { 8 }) {
+            let mut seq: Vec<String> = vec!["si=n".into(), "so=p".into(), "se=p".into()];
+            // the first run: mostly `status` (the call whose result hides what happened to the configuration)
+            seq.push(if i % 4 != 3 { "status".to_string() } else { rng.pick(&runs).to_string() });
+            for _ in 0..rng.range(1, 3) {
+                if rng.chance(1, 4) {
+                    seq.push(format!("{}={}", rng.pick(&["so", "se"]), rng.pick(&["p", "n", "p"])));
+                }
+                seq.push(rng.pick(&["output", "spawn", "output", "status"]).to_string());
+            }
+            if !["output", "spawn"].contains(&seq.last().unwrap().as_str()) {
+                seq.push(rng.pick(&["output", "spawn"]).to_string());
+            }
+            let script = vec![
+                Act::Emit { dst: 'o', byte: b'a', n: rng.range(1, 1500) },
+                Act::Emit { dst: 'e', byte: b'b', n: rng.range(1, 1400) },
+                if rng.chance(1, 5) { Act::Kill(*rng.pick(&SIGS)) } else { Act::Exit(*rng.pick(&CODES)) },
+            ];
+            for drv in ["uring", "poll"] {
+                cases.push(Case { name: format!("reuse-{n}"), lines: vec![format!("reuse {drv} {} {} -", seq.join("."), script_text(&script))] });
+                n += 1;
+            }
+        }
     }
 
     cases
